@@ -60,6 +60,12 @@ fixed('C03', 'select the periodic or Robin ghost values of the back/front', 'B3/
 fixed('C05', 'forwards the optional u_upwind', 'E3u convectionUpwindTerm dispatcher drops u_upwind on 6 of 9 classes')
 fixed('C11', 'harmonicMean returns 0', 'W8 harmonicMean 2D/3D: 0/0 = nan for two adjacent zeros')
 
+fixed('C04', 'solvePDE builds the cached boundary term', 'S7 solvePDE on a solveExplicitPDE result: AttributeError _BCsTerm')
+fixed('C16', 'documented TypeError for objects that are no equation term', 'L7 solvePDE unknown term: AttributeError instead of TypeError')
+fixed('C16', 'FaceVariable.rvalue setter raises', 'L2 rvalue setter assigns _xvalue on Cartesian grids')
+fixed('C16', 'thetavalue/phivalue raise AttributeError', 'L2 thetavalue/phivalue on SphericalGrid1D: NotImplementedError')
+fixed('C16', 'wrong number of constructor arguments', 'L5 PolarGrid2D/CylindricalGrid3D/SphericalGrid3D arity: IndexError/UnboundLocalError')
+
 exec(open(os.path.join(os.path.dirname(__file__), 'known_more.py')).read()) if os.path.exists(os.path.join(os.path.dirname(__file__), 'known_more.py')) else None
 json.dump(dict(findings=f), open('/verif/known_findings.json', 'w'), indent=1)
 print(len(f), 'entries')
